@@ -4,9 +4,10 @@ Whole-system black-box rig (harness/overlay/zz_verif/e2e/main.go): the real clie
 real proxy library (one process per proxy), the real server library, the repo's broker binary,
 kcp-go / smux / pion / gorilla as they are, and between proxy and server a TCP relay that injects
 the carrier faults. This module generates the fault schedules, runs them and evaluates the
-PROPERTY on what the two application ends wrote and read. There is no extracted model in this
-check: the Coq side (Properties/C01.v) is the composition of the C09/C05/C17 theorems with
-kcp-go/smux as a stated hypothesis; this check is that composition's tie to the code."""
+PROPERTY on what the two application ends wrote and read. The rig compares no extracted model:
+the Coq side (Properties/C01.v) is the composition of the C09/C05/C17 theorems with kcp-go/smux as
+a stated hypothesis, and the rig is that composition's tie to the code. One layer IS compared with
+its extracted model first: the proxy's relay step copyLoop (checks/c01_copyloop.py, Model/CopyLoop.v)."""
 import os
 import shutil
 import signal
@@ -14,6 +15,7 @@ import subprocess
 import time
 
 import vlib
+from checks import c01_copyloop
 
 KIB = 1024
 STALL_MS = 120000     # no progress and no disturbance for this long, with a proxy alive = stalled
@@ -244,6 +246,7 @@ def summarise(d):
 
 
 def run(ctx):
+    c01_copyloop.run_copyloop(ctx)
     ctx.level = "proof"
     exe, broker = build()
     ctx.trusted += ["the rig harness/overlay/zz_verif/e2e/main.go: fault-injecting TCP relay, HTTP front of the broker, stub STUN and NAT "
@@ -283,13 +286,17 @@ def run(ctx):
     ctx.extra["totals"] = dict(scenarios=len(per), bytes_up=tot_up, bytes_down=tot_down, carriers=tot_car, faults_injected=tot_faults,
                                stalled_without_proxy=nstall, rig_wall_s=round(time.time() - t0, 1))
     ctx.extra["explanation"] = ("black-box runs of the assembled system under seeded fault schedules; the property is evaluated on the bytes "
-                                "written and read at the two application ends; no extracted model is compared in this check")
+                                "written and read at the two application ends (no extracted model is compared by the rig); before that the "
+                                "proxy's relay step copyLoop is replayed against its extracted model (Model/CopyLoop.v) on scripted conns")
 
 
 def replay(ctx, doc):
+    bad = c01_copyloop.replay_copyloop(ctx, doc)
+    rig = [v for v in doc.get("violations", []) if v.get("replay", {}).get("label") != "copyloop"]
+    if not rig:
+        return 1 if bad else 0
     exe, broker = build()
-    bad = 0
-    for v in doc.get("violations", [])[:4]:
+    for v in rig[:4]:
         case = v["replay"].get("case")
         if not case:
             continue
